@@ -15,7 +15,15 @@ def load():
         return {"findings": [], "fixed": []}
 
 
+# a violation seen when a query is repeated in the same state carries this prefix; if the underlying mechanism is a listed
+# finding (e.g. a solver status of THAT call) it is the same finding, observed in a second query
+PREFIXES = ("second-query-same-state:",)
+
+
 def entry(kf, pid, mechanism):
+    for p in PREFIXES:
+        if mechanism.startswith(p):
+            mechanism = mechanism[len(p):]
     for e in kf.get("findings", []):
         if e.get("property") == pid and e.get("status", "open") == "open" and e.get("key") == mechanism:
             return e
